@@ -27,7 +27,7 @@ def _worker(args):
             r = discharge(ob)
             item = dict(name=ob.name, kind=ob.kind, line=ob.lineno, status=r["status"], backend=r["backend"],
                         time=r["time"], model=model_summary(r.get("model")), reason=r.get("reason"))
-            if r["status"] == "failed" and r.get("model") is not None:
+            if r["status"] in ("failed", "candidate") and r.get("model") is not None:
                 try:
                     item["witness"] = eng.witness(key, ob, r["model"])
                 except Exception as e:  # noqa
@@ -41,6 +41,9 @@ def _worker(args):
                         w["replayed"] = bool(w["replay"].get("replayed"))
                     except BaseException as e:  # noqa
                         w["replay"] = dict(replayed=False, reason="replay harness error: " + repr(e))
+            if item["status"] == "candidate":
+                # undecided by the solvers; it counts as a violation only when the candidate input fails on the real code
+                item["status"] = "failed" if (item.get("witness") or {}).get("replayed") else "unknown"
             obs.append(item)
         rep["obligations"] = obs
         rep["trivial"] = [list(x) for x in rep.get("trivial", [])]
